@@ -152,6 +152,13 @@ def c04_scenarios(tier):
             sn = sched.Scenario("%s/build/eager:%s" % (sh, t), ts, all_x(ts, ["build"]), ["-c", "build"], ["build"],
                                 eager=[("build", t)])
             out.append(("c04", sn.describe(), {"max_dev": 0 if tier == "quick" else 1, "sequences": None}))
+    # the surroundings of a run: records of an earlier (failed / successful) run on disk, a listener attached
+    ctxs = [["prior-failed"], ["listener"]] if tier == "quick" else [["prior-failed"], ["prior-ok"], ["listener"], ["prior-failed", "listener"]]
+    for sh in shapes:
+        ts = shape_targets(sh)
+        for ctx in ctxs:
+            sn = sched.Scenario("%s/build+test/all/%s" % (sh, "+".join(ctx)), ts, all_x(ts, ["build", "test"]), ["-c", "build", "test"], ["build", "test"])
+            out.append(("c04", sn.describe(), {"max_dev": 1 if tier == "quick" else 2, "sequences": None, "context": ctx}))
     return out
 
 
@@ -331,6 +338,11 @@ def c06_scenarios(tier):
                     out.append(("c06", {"shape": sh, "faults": [[c, t1, "exit", 1], [c, t2, kind, code]]}, {}))
         # no fault at all: failed=false, exit 0
         out.append(("c06", {"shape": sh, "faults": []}, {}))
+        # the same with an earlier run's records on disk / a listener attached
+        for ctx in ([["prior-failed"], ["listener"]] if tier == "quick" else [["prior-failed"], ["prior-ok"], ["listener"], ["prior-failed", "listener"]]):
+            out.append(("c06", {"shape": sh, "faults": []}, {"context": ctx}))
+            for (c, t) in (positions[0], positions[-1]):
+                out.append(("c06", {"shape": sh, "faults": [[c, t, "exit", 1]]}, {"context": ctx}))
     return out
 
 
@@ -620,6 +632,13 @@ def c05_scenarios(tier):
                             out.append(("c05", {"shape": sh, "modes": [[t, c, m] for (t, c), m in sorted(modes.items())], "args": a, "commands": cmds,
                                                 "sequences": seqs, "checkpoint": cp, "changed": changed, "explicit": explicit, "deps": deps,
                                                 "defs": defs}, {}))
+        # the surroundings of a run: an earlier failed / successful run's records on disk, a listener attached
+        modes = all_x(ts, ["build", "test"])
+        for ctx in ([["prior-failed"], ["listener"]] if tier == "quick" else [["prior-failed"], ["prior-ok"], ["listener"], ["prior-failed", "listener"]]):
+            for (cp, changed, explicit, deps) in [(None, None, None, False), ("head", paths[-1:], None, False), (None, None, paths[-1:], True)]:
+                a = ["-c", "build", "test"] + (["-t"] + explicit + ["--deps"] if explicit else [])
+                out.append(("c05", {"shape": sh, "modes": [[t, c, m] for (t, c), m in sorted(modes.items())], "args": a, "commands": ["build", "test"],
+                                    "sequences": None, "checkpoint": cp, "changed": changed, "explicit": explicit, "deps": deps, "context": ctx}, {}))
     return out
 
 
@@ -656,6 +675,14 @@ def c05_task(desc):
                 r.mr("checkpoint", "update")
                 for t in desc["changed"] or []:
                     r.write(os.path.join(t, "changed2.txt"), "x\n")
+        ctx = desc.get("context") or []
+        if "prior-failed" in ctx:
+            # only the first invocation of that executable (the one of the earlier run) fails
+            r.set_script(ts[0]["path"], desc["commands"][0], ["err " + b"earlier failure\n".hex(), "exit 1"], nth=1)
+        if "prior-failed" in ctx or "prior-ok" in ctx:
+            r.mr("run", *desc["args"], env=r.trace_env())
+        if "listener" in ctx:
+            apply_context(s, r, sn, ["listener"])
         before = r.mr("analyze", "--target-groups")
         bdoc = before.json()
         r.clear_traces()
@@ -752,6 +779,31 @@ def c05_task(desc):
 
 # ------------------------------------------------------------------------------------------ workers
 
+def apply_context(s, r, sn, ctx):
+    """Things that exist around the explored run without being part of it: the records of an earlier
+    run of the same arguments in the same repository (one that failed at the first target's first
+    command, or one that succeeded), and/or a `log tail` listener attached for every execution."""
+    if "prior-failed" in ctx:
+        r.set_script(sn.targets[0]["path"], sn.commands[0], ["err " + b"earlier failure\n".hex(), "exit 1"])
+        pr = r.mr("run", *sn.args, env=r.trace_env())
+        if pr.json() is None:
+            raise common.EngineError("context: the earlier run printed no document: exit %s %s" % (pr.code, pr.err[:200]))
+    if "prior-ok" in ctx:
+        pr = r.mr("run", *sn.args, env=r.trace_env())
+        if pr.json() is None:
+            raise common.EngineError("context: the earlier run printed no document: exit %s %s" % (pr.code, pr.err[:200]))
+    if "listener" in ctx:
+        import subprocess
+        lis = subprocess.Popen([common.MONORAIL, "log", "tail", "--stdout", "--stderr"], cwd=r.dir, env=s.env(),
+                               stdout=subprocess.DEVNULL, stderr=subprocess.DEVNULL, start_new_session=True)
+        s.popens.append(lis)
+        t_end = time.time() + 10
+        while not sc.port_listening(r.log_port):
+            if lis.poll() is not None or time.time() > t_end:
+                raise common.EngineError("context: log tail did not start")
+            time.sleep(0.02)
+
+
 def sched_task(kind, desc, opts):
     sn = sched.Scenario.from_desc(desc) if kind == "c04" else c06_build(desc)
     if kind == "c04":
@@ -763,6 +815,10 @@ def sched_task(kind, desc, opts):
         if groups is None:
             raise common.EngineError("no expected groups for %s: %r" % (sn.name, res))
         mon = c04_monitor(sn) if kind == "c04" else c06_monitor(sn)
+        if opts.get("context"):
+            sn.context = opts["context"]
+        if sn.context:
+            apply_context(s, r, sn, sn.context)
         st = explore_bounded(s, r, sn, groups, mon, opts.get("max_dev", 99))
         return {"evaluations": st["executions"], "nontrivial": 1 if st["executions"] > 1 or sn.faults else 0,
                 "states": len(st["states"]), "transitions": st["transitions"], "docs": list(st["docs"])[:50],
@@ -928,6 +984,8 @@ def replay(prop, path):
             groups, _ = sched.expected_groups(rr, sn)
             mon = c04_monitor(sn) if kind == "c04" else c06_monitor(sn)
             prefix = [(e, c) for e, c in case["schedule"]]
+            if sn.context:
+                apply_context(s, rr, sn, sn.context)
             ex1 = sched.run_once(s, rr, sn, groups, prefix)
             ex2 = sched.run_once(s, rr, sn, groups, prefix)
             v1, v2 = mon(ex1), mon(ex2)
